@@ -94,8 +94,72 @@ let run_src (src : str) (stdin : str) wb rf prof : string =
   | ParseCrash (s, ub) -> (if ub then "ub " else "panic ") ^ Main_common.site_name s
   | ParseOutOfFuel -> "outoffuel"
 
+let rec int_of_nat (n : nat) : int = match n with O -> 0 | S k -> 1 + int_of_nat k
+
+let binop_debug o = match o with
+  | OpPlus -> "Plus" | OpMinus -> "Minus" | OpMultiply -> "Multiply" | OpDivide -> "Divide"
+  | OpAnd -> "And" | OpOr -> "Or" | OpNor -> "Nor" | OpEq -> "Eq" | OpNotEq -> "NotEq"
+  | OpGreater -> "Greater" | OpGreaterEq -> "GreaterEq" | OpLess -> "Less" | OpLessEq -> "LessEq"
+
+let event_text (e : event) : string =
+  let rt r = sexp_to_string (Astsx.sx_range r) in
+  match e with
+  | EvLiteral (l, r) -> "(lit " ^ sexp_to_string (Astsx.sx_literal l) ^ " " ^ rt r ^ ")"
+  | EvPronoun r -> "(pronoun " ^ rt r ^ ")"
+  | EvSimple (s, r) -> "(simple " ^ atom_of_str s ^ " " ^ rt r ^ ")"
+  | EvCommon (p, w, r) -> "(common " ^ atom_of_str p ^ " " ^ atom_of_str w ^ " " ^ rt r ^ ")"
+  | EvProper (ws, r) -> "(proper " ^ String.concat " " (List.map atom_of_str ws) ^ " " ^ rt r ^ ")"
+  | EvBinOp o -> "(binop " ^ binop_debug o ^ ")"
+  | EvUnOp o -> "(unop " ^ (match o with UMinus -> "Minus" | UNot -> "Not") ^ ")"
+  | EvPoeticElem (PEWord s) -> "(elem (w " ^ atom_of_str s ^ "))"
+  | EvPoeticElem (PESuffix s) -> "(elem (x " ^ atom_of_str s ^ "))"
+  | EvPoeticElem PEDot -> "(elem (dot))"
+
+let fold_err_name e = match e with
+  | FNoType -> "NoType" | FUnknownValue -> "UnknownValue" | FWrongType -> "WrongType"
+  | FNeedMoreInfo -> "NeedMoreInfo" | FPossibleValueIgnored -> "PossibleValueIgnored"
+
+let run_ana (op : string) (args : sexp list) : string =
+  match args with
+  | A src :: rest ->
+      (match parse Debug (str_of_atom src) with
+       | ParseErr e ->
+           (match parse_error_display e with Ok m -> "parse-error " ^ atom_of_str m | _ -> "panic render")
+       | ParseCrash (s, ub) -> (if ub then "ub " else "panic ") ^ Main_common.site_name s
+       | ParseOutOfFuel -> "outoffuel"
+       | ParseOk p ->
+           (match op, rest with
+            | "visit", [A k] ->
+                let fa = if k = "none" then None else Some (nat_of_int (int_of_string k)) in
+                (match record_program fa p with
+                 | (calls, Inl evs) -> Printf.sprintf "ok calls=%d %s" (int_of_nat calls) (String.concat " " (List.map event_text evs))
+                 | (calls, Inr k) -> Printf.sprintf "err %d calls=%d" (int_of_nat k) (int_of_nat calls))
+            | "fold", [] ->
+                let outs = List.concat_map (fun b -> match b with
+                  | BNonEmpty ss -> List.filter_map (fun s -> match s with SOutput e -> Some e | _ -> None) ss
+                  | BEmpty _ -> []) p in
+                "ok " ^ String.concat " " (List.map (fun e ->
+                  let n = (match fold_num e with Ok x -> "ok:" ^ atom_of_f64 x | Err x -> "err:" ^ fold_err_name x | _ -> "crash") in
+                  let s = (match fold_str e with Ok x -> "ok:" ^ atom_of_str x | Err x -> "err:" ^ fold_err_name x | _ -> "crash") in
+                  "(" ^ n ^ " " ^ s ^ ")") outs)
+            | "lint", [] ->
+                (match lint p with
+                 | Ok ds ->
+                     let items = List.map (fun d ->
+                       Printf.sprintf "(diag %s %s %s)" (dec_of_n d.d_line) (atom_of_str d.d_issue)
+                         (String.concat " " (List.map atom_of_str d.d_suggestions))) ds in
+                     let text = String.concat "\n" (List.map (fun d -> utf8_of_str (diag_display d)) ds) in
+                     "ok " ^ String.concat " " items ^ " text=" ^ atom_of_utf8 text
+                 | Panic s -> "panic " ^ Main_common.site_name s
+                 | UB s -> "ub " ^ Main_common.site_name s
+                 | OverBudget -> "overbudget"
+                 | _ -> "crash")
+            | _ -> "unknown-op " ^ op))
+  | _ -> "driver-error args"
+
 let run (suite : string) (op : string) (args : sexp list) : string =
   match suite with
+  | "ana" -> run_ana op args
   | "exec" when op = "parse" ->
       (match args with
        | (A src :: rest) -> parse_text (match rest with [A p] -> profile_of p | _ -> Debug) (str_of_atom src)
